@@ -58,10 +58,10 @@ def _isinstance(ex, st, ctx, v, cls, node):
 def py_len(ex, st, ctx, v, node):
     b = _B()
     tag = b.static_tag(v)
-    kind = b.ref_kind(ex, v) if tag == "ref" else None
-    if tag == "str":
-        return z3.Length(sval(v))
-    if tag == "ref" and kind in (T_LIST, T_TUPLE, T_SET):
+    dk = b.dyn_kind(ex, st, v)
+    if dk == "str":
+        return str_len(ex, sval(v))
+    if dk in ("list", "tuple", "set"):
         return z3.Length(st.heap.lget(rval(v)))
     isseq = z3.And(is_Ref(v), z3.Or(ty(rval(v)) == T_LIST, ty(rval(v)) == T_TUPLE, ty(rval(v)) == T_SET))
     isd = z3.And(is_Ref(v), ty(rval(v)) == T_DICT)
@@ -71,6 +71,25 @@ def py_len(ex, st, ctx, v, node):
     ex.assumptions.append(dl >= 0)
     ex.assumptions.append((dl == 0) == (z3.Select(st.heap.DP, rval(v)) == EMPTY_KP))
     return z3.If(is_Str(v), z3.Length(sval(v)), z3.If(isseq, z3.Length(st.heap.lget(rval(v))), dl))
+
+
+u_dumps_len = None
+
+
+def str_len(ex, s):
+    """len() of a string; the length of json.dumps(x) is its own uninterpreted integer so that size-limit
+    obligations are linear arithmetic (a model does not need a 262144-character string)."""
+    global u_dumps_len
+    b = _B()
+    s = simp(s)
+    if z3.is_app(s) and s.decl().eq(b.u_dumps):
+        if u_dumps_len is None:
+            u_dumps_len = z3.Function("u_dumps_len", Val, DVs, DPs, LSs, I)
+        n = u_dumps_len(*s.children())
+        fact = z3.And(n >= 1, n == z3.Length(s)) if False else (n >= 1)
+        ex.assumptions.append(fact)
+        return n
+    return z3.Length(s)
 
 
 def py_int(ex, st, ctx, v, node):
@@ -115,7 +134,7 @@ def call_builtin(ex, st, ctx, name, args, kwargs, node):
     if name == "str":
         if not args:
             return VStr(sv(""))
-        return VStr(py_str(args[0], st.heap))
+        return VStr(b.py_str2(ex, st, args[0]))
     if name == "repr":
         return VStr(z3.Function("u_repr", Val, S)(args[0]))
     if name == "bool":
@@ -478,7 +497,7 @@ def spec_func(ex, st, ctx, name, args, node):
         return VBool(z3.And(z3.Not(is_Fn(v)), z3.Not(is_Opq(v)), z3.Not(is_Unbound(v)),
                             z3.Implies(is_Ref(v), z3.Or(ty(rval(v)) == T_DICT, ty(rval(v)) == T_LIST))))
     if name == "haskey":
-        return VBool(st.heap.dhas(rval(args[0]), b.dkey(args[1])))
+        return VBool(b.hhas(ex, st, rval(args[0]), b.dkey2(ex, st, args[1])))
     if name == "keys_exactly":
         d = args[0]
         want = EMPTY_KP
@@ -526,7 +545,7 @@ def spec_func(ex, st, ctx, name, args, node):
     if name == "seqlen":
         return VInt(z3.Length(st.heap.lget(rval(args[0]))))
     if name == "strlen":
-        return VInt(z3.Length(sval(args[0])))
+        return VInt(str_len(ex, sval(args[0])))
     if name == "is_decimal_str":
         return VBool(z3.And(is_Str(args[0]), is_decimal(sval(args[0]))))
     if name == "str_to_int":
